@@ -59,6 +59,8 @@ def run(ctx):
 
 
 def replay(ctx, payload):
+    if translate.is_link_replay(payload) and not payload.get("failing_input"):
+        return translate.replay(ctx, payload, "C15")  # a replay file written for a broken translation tie
     c = payload.get("case") or payload.get("failing_input")
     batch = je.Batch()
     je.examine(ctx, batch, c, {"C15"}, ctx.rng)
